@@ -532,3 +532,39 @@ func ruleT2rel(c *Ctx, id string) {
 		R.Check(!a.bad, id, k, a.pos, "an early release gives up only a lock acquired at the same site for a look, never one the transaction already held", fmt.Sprintf("released inode was acquired at this site on every explored path (%d entry contexts)", len(a.entries)), a.why)
 	}
 }
+
+
+// ---------------------------------------------------------------- C11.V15
+
+// frozen invariants for uses of a possibly-nil inode without a nil test
+var nilUseJustified = map[string]string{
+	// dir.Apply hands the entry's inode to the READDIRPLUS callback without a nil test.  GetInodeInum is nil
+	// only for a FREE inode; a name is removed and its inode freed in one transaction under the directory's
+	// lock (C04.S2), which READDIRPLUS holds, so an entry it reads names a live inode.  ".." could name a freed
+	// parent only if the parent's count reached 0 while the child exists; known finding D5b errs in the other
+	// direction (the old parent is never freed).
+	"nfs.Ls3$1|field Gen":          "entry of a locked directory names a live inode (C04.S2)",
+	"nfs.Ls3$1|field Inum":         "entry of a locked directory names a live inode (C04.S2)",
+	"nfs.Ls3$1|passed to MkFattr": "entry of a locked directory names a live inode (C04.S2)",
+}
+
+func ruleNilUse(c *Ctx, id string) {
+	R, P := c.R, c.P
+	R.Rule(id, "the inode returned by GetInodeFh / GetInodeInum / AllocInode (nil for a stale handle, a freed inode, an exhausted table) is tested against nil on every path before it is dereferenced or handed to code that dereferences it", 1)
+	t := c.tsPreamble(id)
+	seen := map[string]bool{}
+	n := 0
+	for _, e := range sortedEvents(t, "niluse") {
+		key := fmt.Sprintf("%s|%s", FuncName(e.Fn), e.Detail)
+		if seen[key] {
+			continue
+		}
+		seen[key] = true
+		n++
+		why, ok := nilUseJustified[key]
+		R.Check(ok, id, key+"|possibly nil", P.Pos(e.Pos), "no use of an inode that may be nil", why, "the inode acquired at "+e.Extra["src"]+" may be nil here (entry "+e.Entry+"): a nil dereference kills the server")
+	}
+	if n == 0 {
+		R.Pass(id, "typestate|no use of a possibly nil inode", "?", "every acquisition result is nil-tested before use on every explored path", fmt.Sprintf("%d acquisition sites explored", len(sortedEvents(t, "acquire"))))
+	}
+}
